@@ -518,6 +518,62 @@ def marker_files(ctx):
     return out
 
 
+# ------------------------------------------------------------------ bracket groups in function headers x many hash seeds
+
+HDR_OPEN = {"[": "]", "(": ")", "<": ">", "{": "}"}
+
+
+def header_groups():
+    """bracket groups as headers carry them (type parameter lists, generics, subscripts, attributes, array declarators):
+    every outer bracket kind x (no inner group | every inner kind): `[T]`, `[T: (int, str)]`, `<T, K<int, str>>`, `(T: [int, str])`, ..."""
+    out = []
+    for o in "[(<{":
+        out.append(o + "T" + HDR_OPEN[o])
+        for i in "[(<{":
+            out.append(o + "T: " + i + "int, str" + HDR_OPEN[i] + HDR_OPEN[o])
+    return out
+
+
+def header_shape_file(lang, group, place, multiline):
+    """a tiny file with one function `f` whose header carries `group` BEFORE the name, between the name and the parameter
+    list (PEP 695 / generics position), inside a parameter's annotation or behind the parameter list, the signature on one
+    line or continued over several lines; a plain function in front. Legal or not in the language: the measurements of ANY
+    content must not depend on the hash seed."""
+    pre = group if place == "pre" else ""
+    par = group if place == "param" else ""
+    post = group if place == "post" else ""
+    front = group + " " if place == "front" else ""
+    nl, ind = ("\n        ", "\n") if multiline else (" ", "")
+    if lang == "Python":
+        sig = "def %sf%s(a: int%s,%sb: str%s)%s:" % (front and "", pre, par, nl, ind, (" -> int" + post) if post else "")
+        return ("@d%s\n" % group if front else "") + "def keep(a):\n    return a\n\n\n" + sig + "\n    a = a + 1\n    b = b + a\n    return a\n"
+    if lang in ("JavaScript", "TypeScript"):
+        sig = "function %sf%s(a%s,%sb%s)%s {" % (front and "", pre, (": T" + par) if par and lang == "TypeScript" else (" = " + par if par else ""), nl, ind, (": T" + post) if post else "")
+        return "function keep(a) {\n  return a;\n}\n" + (front + "\n" if front else "") + sig + "\n  a = a + 1;\n  b = b + a;\n  return a;\n}\n"
+    sig = "%sint%s f%s(int a%s,%sint b%s)%s {" % (front, "", pre, par, nl, ind, (" " + post) if post else "")
+    body = "\n    a = a + 1;\n    b = b + a;\n    return a;\n  }\n"
+    if lang in ("Java", "C#"):
+        return "class K {\n  int keep(int a) {\n    return a;\n  }\n  " + sig + body + "}\n"
+    return "int keep(int a) {\n  return a;\n}\n" + sig + body.replace("\n  }", "\n}")
+
+
+def header_shape_files(ctx):
+    """per language: every bracket group x the generics position, one line and continued; a drawn share of the other
+    positions (all of them in the thorough tier)"""
+    rnd = ctx.rng("header-shapes")
+    out, seen = [], set()
+    for lang in sr.LANGS:
+        for g in header_groups():
+            for place in ("pre", "param", "post", "front"):
+                for ml in (False, True):
+                    if place != "pre" and not ctx.thorough and rnd.random() >= 0.2:
+                        continue
+                    code = header_shape_file(lang, g, place, ml)
+                    if (lang, code) not in seen:
+                        seen.add((lang, code)); out.append((lang, code))
+    return out
+
+
 # ------------------------------------------------------------------ name collisions: a file analysed right after files that
 # DECLARE its function names in every other form (function-like / object-like macro, typedef, function or class of another
 # language, variable) - whatever the process keeps per identifier (macro tables, symbol caches, "seen" sets) shows
@@ -776,6 +832,8 @@ def correspond(ctx):
     # the marker files (tiny) go through MANY hash seeds: appended to `fs`, analysed in their own interpreters
     n_main = len(fs)
     mk = [(l, c) for (l, c) in marker_files(ctx)]
+    n_marker_only = len(mk)
+    mk += header_shape_files(ctx)       # (round 7) tiny too: through the same ladder of hash seeds
     mk_model = sr.model_scan_many([sr.scan_request(l, c) for (l, c) in mk])
     for i, m in enumerate(mk_model):
         ref[n_main + i] = m
@@ -815,6 +873,19 @@ def correspond(ctx):
                 fails.append({"input": inp, "observed": r[:200], "required": "the result of analysing this file alone: " + ref[i][:200]})
             if not r.startswith("ok 0 ") and r.startswith("ok"):
                 nontrivial.add((i, s))
+    # the property itself, without the model: one file, one content -> one result, whatever the hash seed / order / process
+    by_file = {}
+    for (s, o, res, err) in results:
+        for i, r in zip(o, res or []):
+            by_file.setdefault(i, {}).setdefault(r, []).append(s)
+    n_seed_groups = sum(1 for v in by_file.values() if sum(len(x) for x in v.values()) > 1)
+    for i, v in sorted(by_file.items()):
+        if len(v) > 1:
+            (ra, sa), (rb, sb) = sorted(v.items(), key=lambda kv: (-len(kv[1]), kv[0]))[:2]
+            fails.append({"input": {"language": fs[i][0], "code": fs[i][1], "hashseed": sb[0], "position_in_order": 0, "predecessors": [],
+                                    "other_hashseeds": sa[:4]},
+                          "observed": "PYTHONHASHSEED in %s: %s" % (sb[:6], rb[:200]),
+                          "required": "the same result under every hash seed; PYTHONHASHSEED in %s: %s" % (sa[:6], ra[:200])})
     t = scan_tree_twice(ctx, fs)
     if t:
         fails.append(t)
@@ -828,10 +899,10 @@ def correspond(ctx):
     evals += hstats["scans"]
     return {
         "evaluations": evals + 2, "distinct_nontrivial": len(nontrivial),
-        "rule": "%d files (canonical, malformed incl. ones that abort matching midway, corpus) analysed in %d fresh interpreters: PYTHONHASHSEED in %s x file orders (identity, reversed, random permutations); every per-file result compared with the model's single result; plus two subprocess scans of one tree under different hash seeds; non-trivial = distinct (file, hash seed) pairs with at least one function; PLUS %d marker files (per language: comment opener + at most one further punctuation character + `nocl`, on a header line) in %d further interpreters (hash seeds 0..%d and %d drawn from 0..2^32-1) against the model; PLUS check-orders: %d trees with nested .gitignore files, the real check_command called in %d fresh interpreters with the top-level directories as arguments in every order (pairs, single directories, the root, file + directory lists, the first list again at the end of the same process): %d calls, each judged against the model's analysis of every file alone" % (n_main, len(jobs), seeds if len(seeds) < 8 else "0..29,12345,999983", len(mk), len(mjobs), ctx.pick(16, 64) - 1, ctx.pick(4, 16), ostats["trees"], ostats["interpreters"], ostats["check_calls"]) + "; the tree of the two-scans stream names half of its generated files by ANY extension / whole file name Pygments maps to the language (x.h, x.idc, x.hh, x.hpp, x.cc, x.mjs, x.pyi, BUILD.bazel, ...) and holds byte-identical headers under every contested name (x.h, x.hh, x.cp, x.H, x.hpp) above, beside and below C and C++ sources; PLUS cache-history: %d histories `codelimit scan` -> files rewritten with a kept / back-dated modification time (2 h, 400 days), touched, renamed with the same bytes to the sibling language -> scan with the cache in place -> again -> scan without cache: every entry = checksum of the bytes + the model's analysis of the file as it is now, all three later reports equal up to uuid/timestamp/order (%d scans); of these, size-ladder histories: a file whose functions lie behind N bytes of generated data (one comment block; C / Python / JavaScript) is scanned, the functions rewritten (one grows past 30 / 60 lines; mtime kept / back-dated / new), scanned with the cache in place and without, for N in %s (geometric ladder + %d rungs n-1, n, n+1, 2n from integer literals new in the source tree), judged by construction: function lengths as they are now, checksum of the bytes, equal to the scan without cache; PLUS name collisions: %d files, each analysed directly after predecessors that declare its function names in other forms (C header with function-like macros, C++ header with block-like / object-like macros and typedefs, Python functions / variables, JavaScript functions), in %d further interpreters, every result against the model's" % (hstats["histories"], hstats["scans"], hstats["size_ladder_offsets_of_the_rewritten_region"], hstats["size_rungs_from_novel_source_integers"], n_coll, len(cjobs)),
+        "rule": "%d files (canonical, malformed incl. ones that abort matching midway, corpus) analysed in %d fresh interpreters: PYTHONHASHSEED in %s x file orders (identity, reversed, random permutations); every per-file result compared with the model's single result; plus two subprocess scans of one tree under different hash seeds; non-trivial = distinct (file, hash seed) pairs with at least one function; PLUS %d marker files (per language: comment opener + at most one further punctuation character + `nocl`, on a header line) in %d further interpreters (hash seeds 0..%d and %d drawn from 0..2^32-1) against the model; PLUS check-orders: %d trees with nested .gitignore files, the real check_command called in %d fresh interpreters with the top-level directories as arguments in every order (pairs, single directories, the root, file + directory lists, the first list again at the end of the same process): %d calls, each judged against the model's analysis of every file alone" % (n_main, len(jobs), seeds if len(seeds) < 8 else "0..29,12345,999983", len(mk), len(mjobs), ctx.pick(16, 64) - 1, ctx.pick(4, 16), ostats["trees"], ostats["interpreters"], ostats["check_calls"]) + "; round 7: the marker files include %d HEADER-SHAPE files: per language one function whose header carries a bracket group - every outer kind [ ( < { x (none | every inner kind): `[T]`, `[T: (int, str)]`, `<T: [int, str]>`, ... - between the name and the parameter list (type parameters / generics; all), inside a parameter, behind the parameter list or in front of the header (a share; all in the thorough tier), the signature on one line and continued over several; and every file seen by more than one interpreter (%d) is ALSO judged without the model: the same result under every hash seed" % (len(mk) - n_marker_only, n_seed_groups) + "; the tree of the two-scans stream names half of its generated files by ANY extension / whole file name Pygments maps to the language (x.h, x.idc, x.hh, x.hpp, x.cc, x.mjs, x.pyi, BUILD.bazel, ...) and holds byte-identical headers under every contested name (x.h, x.hh, x.cp, x.H, x.hpp) above, beside and below C and C++ sources; PLUS cache-history: %d histories `codelimit scan` -> files rewritten with a kept / back-dated modification time (2 h, 400 days), touched, renamed with the same bytes to the sibling language -> scan with the cache in place -> again -> scan without cache: every entry = checksum of the bytes + the model's analysis of the file as it is now, all three later reports equal up to uuid/timestamp/order (%d scans); of these, size-ladder histories: a file whose functions lie behind N bytes of generated data (one comment block; C / Python / JavaScript) is scanned, the functions rewritten (one grows past 30 / 60 lines; mtime kept / back-dated / new), scanned with the cache in place and without, for N in %s (geometric ladder + %d rungs n-1, n, n+1, 2n from integer literals new in the source tree), judged by construction: function lengths as they are now, checksum of the bytes, equal to the scan without cache; PLUS name collisions: %d files, each analysed directly after predecessors that declare its function names in other forms (C header with function-like macros, C++ header with block-like / object-like macros and typedefs, Python functions / variables, JavaScript functions), in %d further interpreters, every result against the model's" % (hstats["histories"], hstats["scans"], hstats["size_ladder_offsets_of_the_rewritten_region"], hstats["size_rungs_from_novel_source_integers"], n_coll, len(cjobs)),
         "samples": [{"hashseed": s, "order": o[:8], "first_result": (res or [""])[0][:60]} for (s, o, res, e) in results[:3]],
         "exhaustive": False, "distribution": {"files": n_main, "interpreters": len(jobs), "hash_seeds": len(seeds), "orders": len(orders),
-                                              "marker_files": len(mk), "marker_hash_seeds": len(mseeds), "name_collision_followers": n_coll, "name_collision_predecessor_files": len(cextra), "check_orders": ostats, "cache_history": hstats},
+                                              "marker_files": n_marker_only, "header_shape_files": len(mk) - n_marker_only, "files_compared_across_hash_seeds": n_seed_groups, "marker_hash_seeds": len(mseeds), "name_collision_followers": n_coll, "name_collision_predecessor_files": len(cextra), "check_orders": ostats, "cache_history": hstats},
         "disagreements": dis[:30], "oracle_failures": fails[:30],
     }
 
